@@ -18,16 +18,23 @@ from . import _c12_helpers as H
 
 PROPERTY = "C13"
 RULE = (
-    "samplers: sparse/dense data with a drawn fill class (one nonzero / some / nearly full / full) and stored order, "
-    "requested counts 0..3x the available zeros / nonzeros, np_seed; direct calls of uniform/stratified/semistrat and "
-    "GCPSampler configurations; oracle = subscripts inside the shape, values = data there (drawn zeros are true "
-    "zeros; semistrat: nonzero part only), one weight per sample, weight totals = stratum sizes.  solvers: "
-    "SGD/Adam/Adagrad through gcp_opt on tiny problems (6 losses, dense/sparse, epoch_iters 1..4, max_iters 0..5, "
-    "max_fails 0..2, rates that make failed epochs common) with a recording sampler wrapper; oracle = trace length "
+    "samplers: sparse/dense data with a drawn fill class (one nonzero / some / nearly full / full), stored order, "
+    "magnitude (1e-6..1e6), integer dtype for counts and provenance state (constructor / NumPy-int shape / grown by "
+    "assignment / converted from dense; dense: grown, integer and boolean dtypes); requested counts 0..3x the "
+    "available zeros / nonzeros incl. avail-1, avail, avail+1; np_seed; direct calls of uniform/stratified/semistrat "
+    "and GCPSampler configurations (incl. over_sample_rate); oracle = subscripts inside the shape, values = data "
+    "there (drawn zeros are true zeros; semistrat: nonzero part only), one weight per sample, weight totals = "
+    "stratum sizes.  sampler reuse: sequences of 2..4 draws from one GCPSampler, each equal to the draw of a freshly "
+    "built sampler (fresh data object) from the same random state and to a repeated draw; direct samplers twice.  "
+    "solvers: SGD/Adam/Adagrad through gcp_opt on tiny problems (6 losses, dense/sparse, data in float or integer "
+    "dtype / grown / C-order input, Gaussian data scaled 1e-3..1e3, guess as factor list / ktensor fresh, normalised, "
+    "arranged or weighted / random; epoch_iters 1..4, max_iters 0..6, max_fails 0..2, f_est_tol, printitn, Adam "
+    "beta/epsilon, rates that make failed epochs common) with a recording sampler wrapper; oracle = trace length "
     "1+completed epochs, trace[0] = my estimate of the initial model on the recorded function sample, my estimate "
-    "of the returned model = min(trace) <= trace[0], entries >= lower bound; L-BFGS-B: final_f = my weighted "
-    "objective of the returned model <= objective of the guess, bounds.  reuse: sequences of 2..4 solves on one "
-    "optimizer object, each compared bit-for-bit with a fresh object given the same arguments and np seed.  "
+    "of the returned model = min(trace) <= trace[0], entries >= lower bound; L-BFGS-B (masks as float/int/bool "
+    "tensors, maxls): final_f = my weighted objective of the returned model <= objective of the guess, bounds.  "
+    "reuse: sequences of 2..4 solves on one optimizer object (optionally the same data and GCPSampler objects), each "
+    "compared bit-for-bit with a fresh object given the same arguments and np seed.  "
     "Non-trivial: sampler case with both strata non-empty and >= 2 samples; solve with >= 1 failed epoch; "
     "sequence with >= 2 solves of different size."
 )
@@ -40,7 +47,10 @@ ASSUMPTIONS = [
     "semistrat 'zero' samples are unconfirmed by design: only subscripts-in-range, value 0 and weights are checked",
     "SGD may legitimately stop with ValueError('Infinite gradient encountered') when the step size diverges",
     "estimates on a sample are compared with the C12 tolerances (64 eps x term scale + model rounding, x n)",
-    "reuse: 'equal' = identical factor matrices, weights and f_est_trace / final_f (bitwise)",
+    "reuse: 'equal' = identical factor matrices, weights and f_est_trace / final_f (bitwise); sampler reuse: identical "
+    "subscripts, values and weights (a draw that raises must raise in the fresh sampler too)",
+    "sparse data with explicitly stored zeros is not generated for the samplers: whether a stored zero belongs to "
+    "the 'nonzero' stratum (stratification is by stored entries) is not settled by the property",
 ]
 
 EPS = H.EPS
@@ -83,14 +93,59 @@ def _sp_data(draw, tier, min_order=1, max_order=3, fills=("one", "some", "some",
         entries = [entries[i] for i in p]
     nnz = len(entries)
     fill = "full" if nnz == n else fill
-    return dict(shape=shape, subs=[e[0] for e in entries], vals=[e[1] for e in entries], fill=fill, stored=order,
-                nnz=nnz, nzeros=n - nnz)
+    # data magnitude (floats: 1e-6 .. 1e+6) / integer dtype (counts) / state the tensor object is in
+    vscale = draw(st.sampled_from([1.0, 1.0, 1.0, 1e-6, 1e6])) if vk == "float" else 1.0
+    vdtype = draw(st.sampled_from(["float64", "float64", "int64", "int32", "uint8"])) if vk == "count" else "float64"
+    dprov = draw(st.sampled_from(["ctor", "ctor", "ctor", "np-shape", "grown", "from-dense"]))
+    return dict(shape=shape, subs=[e[0] for e in entries], vals=[e[1] * vscale for e in entries], fill=fill, stored=order,
+                nnz=nnz, nzeros=n - nnz, vdtype=vdtype, dprov=dprov, vscale=vscale)
+
+
+def _build_sp(case):
+    """the sparse data tensor in the drawn dtype and provenance state (public API only; when a route does not lead to
+    the wanted tensor - those routes are judged by other properties - the constructor is used)"""
+    shape = tuple(case["shape"])
+    n = len(case["subs"])
+    if n == 0:
+        return ttb.sptensor(shape=shape)
+    subs = np.array(case["subs"], dtype=int).reshape(n, len(shape))
+    vals = H.typed(case["vals"], case.get("vdtype")).reshape(n, 1)
+    prov = case.get("dprov", "ctor")
+    S = None
+    try:
+        if prov == "np-shape":
+            S = ttb.sptensor(subs, vals, tuple(np.array(shape, dtype=np.int64)))
+        elif prov == "from-dense":
+            A = np.zeros(shape, dtype=vals.dtype)
+            A[tuple(subs.T)] = vals[:, 0]
+            S = ttb.tensor(A).to_sptensor()
+        elif prov == "grown":
+            cand = [m for m in range(len(shape)) if shape[m] >= 2 and np.any(subs[:, m] == shape[m] - 1)]
+            if cand:
+                m = cand[-1]
+                small = list(shape)
+                small[m] -= 1
+                inside = subs[:, m] < shape[m] - 1
+                S = ttb.sptensor(subs[inside], vals[inside], tuple(small)) if inside.any() else ttb.sptensor(shape=tuple(small))
+                for sub, v in zip(subs[~inside], vals[~inside]):
+                    S[tuple(int(i) for i in sub)] = v[0].item()
+    except Exception:  # noqa: BLE001
+        S = None
+    if S is not None and not (tuple(int(x) for x in S.shape) == shape and np.array_equal(ref.den(S), gen.dense_of_sparse_case(case))):
+        S = None
+    return ttb.sptensor(subs, vals, shape) if S is None else S
+
+
+def _sp_labels(ctx, case, S):
+    ctx.label("data-" + case.get("dprov", "ctor"), "vals-" + str(S.vals.dtype), f"scale-{case.get('vscale', 1.0)}")
+    if not all(type(x) is int for x in S.shape):
+        ctx.label("shape-holds-numpy-ints")
 
 
 def _count(avail):
     """requested sample count for a stratum with `avail` entries: 0 .. 3x"""
     return st.one_of(st.sampled_from([0, 1, 1, 2]), st.integers(1, max(1, avail)), st.integers(1, max(1, avail)),
-                     st.integers(avail + 1, 3 * avail + 2))
+                     st.integers(avail + 1, 3 * avail + 2), st.sampled_from([max(0, avail - 1), avail, avail + 1]))
 
 
 def _dense_of(case):
@@ -161,14 +216,26 @@ def _uniform_case(draw, tier):
     n = ref.prod(c["shape"])
     c["samples"] = draw(_count(n))
     c["np_seed"] = draw(st.integers(0, 2**31 - 1))
+    c["ddtype"] = draw(st.sampled_from(["float64", "float64", "int64", "int32", "uint8", "bool"])) if c["vkind"] == "int" else "float64"
     return c
+
+
+def _build_dense(case):
+    """dense data tensor: gen.build_tensor (constructor or grown), in an integer dtype where that is exact"""
+    T = gen.build_tensor(case)
+    A = gen.arr_F(case["shape"], case["data"])
+    At = H.typed(A, case.get("ddtype"))
+    if At.dtype != np.float64 and not gen.is_grown(T):
+        T = ttb.tensor(At.copy(order="F"), tuple(case["shape"]))
+    return T
 
 
 @cell("C13/sampler/uniform", strategy=_uniform_case, quick=400, thorough=8000, shards=(1, 4))
 def sampler_uniform(ctx, case):
-    T = gen.build_tensor(case)
+    T = _build_dense(case)
     A = gen.arr_F(case["shape"], case["data"])
     k = case["samples"]
+    ctx.label("data-" + str(T.data.dtype), "buffer-not-F-ordered" if gen.is_grown(T) else "buffer-F-ordered")
     ctx.label(*gen.shape_classes(case["shape"]), "samples-0" if k == 0 else ("samples>cells" if k > A.size else "samples<=cells"))
     ctx.nt = k >= 2 and A.size >= 2
     np.random.seed(case["np_seed"])
@@ -197,8 +264,9 @@ def _stratified_case(draw, tier):
 
 @cell("C13/sampler/stratified", strategy=_stratified_case, quick=600, thorough=12000, shards=(1, 4))
 def sampler_stratified(ctx, case):
-    S = gen.build_sptensor(case)
+    S = _build_sp(case)
     A = _dense_of(case)
+    _sp_labels(ctx, case, S)
     knz, kz = case["num_nonzeros"], case["num_zeros"]
     impossible = kz > 0 and case["nzeros"] == 0
     ctx.label("fill-" + case["fill"], "stored-" + case["stored"], "kz=0" if kz == 0 else (
@@ -234,8 +302,9 @@ def _semistrat_case(draw, tier):
 
 @cell("C13/sampler/semistrat", strategy=_semistrat_case, quick=400, thorough=8000, shards=(1, 4))
 def sampler_semistrat(ctx, case):
-    S = gen.build_sptensor(case)
+    S = _build_sp(case)
     A = _dense_of(case)
+    _sp_labels(ctx, case, S)
     knz, kz = case["num_nonzeros"], case["num_zeros"]
     ctx.label("fill-" + case["fill"], "kz=0" if kz == 0 else "kz>0", "knz=0" if knz == 0 else "knz>0")
     ctx.nt = knz >= 1 and kz >= 1
@@ -276,6 +345,7 @@ def _gcpsampler_case(draw, tier):
         c["fn"] = _samples_arg(draw, c["nnz"], c["nzeros"], c["fs"] != "UNIFORM")
         c["gn"] = _samples_arg(draw, c["nnz"], c["nzeros"], c["gs"] != "UNIFORM")
     c["max_iters"] = draw(st.sampled_from([1000, 1000, 1, 7]))
+    c["over_sample_rate"] = draw(st.sampled_from([None, None, 1.1, 1.5, 3.0, 10.0]))
     c["np_seed"] = draw(st.integers(0, 2**31 - 1))
     return c
 
@@ -314,7 +384,13 @@ def _check_gcp_sample(ctx, case, A, out, kind, k_nonzero, tag):
 def sampler_gcp(ctx, case):
     A = _dense_of(case)
     dense = case["holder"] == "dense"
-    data = ttb.tensor(A.copy(order="F"), tuple(case["shape"])) if dense else gen.build_sptensor(case)
+    if dense:
+        At = H.typed(A, case.get("vdtype"))
+        data = ttb.tensor(At.copy(order="F"), tuple(case["shape"]))
+        ctx.label("vals-" + str(data.data.dtype))
+    else:
+        data = _build_sp(case)
+        _sp_labels(ctx, case, data)
     fs = None if case["fs"] is None else getattr(Samplers, case["fs"])
     gs = None if case["gs"] is None else getattr(Samplers, case["gs"])
     ctx.label("holder-" + case["holder"], "fill-" + case["fill"], f"f-{case['fs']}", f"g-{case['gs']}",
@@ -322,7 +398,11 @@ def sampler_gcp(ctx, case):
     ctx.nt = case["nnz"] >= 1 and case["nzeros"] >= 1
     full = case["nzeros"] == 0
     with ctx.sut("GCPSampler"):
-        smp = GCPSampler(data, fs, _mk_count(case["fn"]), gs, _mk_count(case["gn"]), case["max_iters"])
+        if case.get("over_sample_rate") is None:
+            smp = GCPSampler(data, fs, _mk_count(case["fn"]), gs, _mk_count(case["gn"]), case["max_iters"])
+        else:
+            smp = GCPSampler(data, fs, _mk_count(case["fn"]), gs, _mk_count(case["gn"]), case["max_iters"],
+                             case["over_sample_rate"])
     f_kind = "uniform" if (dense or case["fs"] == "UNIFORM") else "stratified"
     # (UNIFORM gradient sampling of sparse data is implemented as stratified sampling with Poisson counts)
     g_kind = "uniform" if dense else {"SEMISTRATIFIED": "semistrat"}.get(case["gs"], "stratified")
@@ -349,6 +429,86 @@ def sampler_gcp(ctx, case):
             ctx.check(np.array_equal(np.ravel(crng), np.arange(k)), "crng-indexes-the-nonzero-part")
         _check_gcp_sample(ctx, case, A, out, kind, k, tag)
     ctx.check(np.array_equal(ref.den(data), A), "sampler-leaves-data")
+
+
+# --------------------------------------------------------------------------
+# samplers across calls: a draw depends on the arguments and the random stream only
+# --------------------------------------------------------------------------
+
+
+@st.composite
+def _sampler_reuse_case(draw, tier):
+    c = draw(_gcpsampler_case(tier))
+    c["calls"] = draw(st.lists(st.sampled_from(["f", "g", "g"]), min_size=2, max_size=4))
+    c["seeds"] = [draw(st.integers(0, 2**31 - 1)) for _ in c["calls"]]
+    c["direct"] = draw(st.sampled_from(["uniform", "stratified", "semistrat"]))
+    c["direct_counts"] = [draw(st.integers(0, 6)), draw(st.integers(0, 6))]
+    return c
+
+
+def _same_sample(a, b):
+    if isinstance(a, str) or isinstance(b, str):
+        return isinstance(a, str) and isinstance(b, str)
+    return (isinstance(a, tuple) and isinstance(b, tuple) and len(a) == len(b) == 3
+            and all(np.shape(x) == np.shape(y) and np.array_equal(x, y) for x, y in zip(a, b)))
+
+
+def _draw_or_raise(fn, seed):
+    np.random.seed(seed)
+    try:
+        return fn()
+    except Exception as e:  # noqa: BLE001   (what a single draw returns is judged by the sampler cells)
+        return "raised " + type(e).__name__
+
+
+@cell("C13/sampler/reuse", strategy=_sampler_reuse_case, quick=250, thorough=5000, shards=(1, 4))
+def sampler_reuse(ctx, case):
+    """a sequence of 2..4 draws from one GCPSampler (and repeated direct sampler calls): the k-th draw equals the
+    draw a freshly built sampler makes from the same random state - nothing learned in earlier draws leaks"""
+    A = _dense_of(case)
+    dense = case["holder"] == "dense"
+
+    def mk_data():
+        return ttb.tensor(H.typed(A, case.get("vdtype")).copy(order="F"), tuple(case["shape"])) if dense else _build_sp(case)
+
+    def mk_sampler(d):
+        fs = None if case["fs"] is None else getattr(Samplers, case["fs"])
+        gs = None if case["gs"] is None else getattr(Samplers, case["gs"])
+        kw = {} if case.get("over_sample_rate") is None else dict(over_sample_rate=case["over_sample_rate"])
+        return GCPSampler(d, fs, _mk_count(case["fn"]), gs, _mk_count(case["gn"]), case["max_iters"], **kw)
+
+    data = mk_data()
+    ctx.label("holder-" + case["holder"], f"calls={len(case['calls'])}", f"f-{case['fs']}", f"g-{case['gs']}",
+              "direct-" + case["direct"])
+    ctx.nt = len(case["calls"]) >= 3
+    with ctx.sut("GCPSampler"):
+        shared = mk_sampler(data)
+    for i, (which, seed) in enumerate(zip(case["calls"], case["seeds"])):
+        call = (lambda s_, d_: s_.function_sample(d_)) if which == "f" else (lambda s_, d_: s_.gradient_sample(d_))
+        got = _draw_or_raise(lambda: call(shared, data), seed)
+        with ctx.sut("GCPSampler"):
+            d2 = mk_data()
+            fresh_sampler = mk_sampler(d2)
+        want = _draw_or_raise(lambda: call(fresh_sampler, d2), seed)
+        ctx.check(_same_sample(got, want), "later-draw-equals-draw-of-fresh-sampler" if i else "first-draw-equals-draw-of-fresh-sampler",
+                  f"draw {i} ({which}) of {case['calls']}")
+        again = _draw_or_raise(lambda: call(shared, data), seed)
+        ctx.check(_same_sample(got, again), "same-seed-same-draw", f"draw {i} ({which})")
+    ctx.check(np.array_equal(ref.den(data), A), "sampler-leaves-data")
+    # direct calls: the same function with the same arguments and random state twice
+    knz, kz = case["direct_counts"]
+    S = data if not dense else None
+    if case["direct"] == "uniform":
+        fn = lambda: samplers.uniform(data, knz + kz)  # noqa: E731
+    elif S is None:
+        return
+    elif case["direct"] == "stratified":
+        fn = lambda: samplers.stratified(S, _nz_idx(case), knz, kz)  # noqa: E731
+    else:
+        fn = lambda: samplers.semistrat(S, knz, kz)  # noqa: E731
+    one = _draw_or_raise(fn, case["seeds"][0])
+    two = _draw_or_raise(fn, case["seeds"][0])
+    ctx.check(_same_sample(one, two), "direct-sampler-same-seed-same-draw", case["direct"])
 
 
 # --------------------------------------------------------------------------
@@ -463,13 +623,23 @@ def _problem(draw, tier, losses=SOLVE_LOSSES, holders=("dense", "sparse"), max_o
         data[draw(st.integers(0, n - 1))] = 0.0  # (zeros must exist for the stratified samplers to be servable)
     if holder == "sparse" and all(v != 0 for v in data):
         holder = "dense"
-    init_kind = draw(st.sampled_from(["factors", "factors", "ktensor", "random"]))
+    init_kind = draw(st.sampled_from(["factors", "factors", "ktensor", "random", "ktensor-normalized", "ktensor-weighted",
+                                      "ktensor-arranged"]))
     lo = 0.1 if H.LOSSES[name]["lb"] == 0.0 else 0.05
     fv = st.floats(lo, 1.5) if H.LOSSES[name]["lb"] == 0.0 else H.sfloats(lo, 1.5)
     factors = [draw(st.lists(st.lists(fv, min_size=rank, max_size=rank), min_size=s, max_size=s)) for s in shape]
+    # data magnitude: the Gaussian loss is scale-free (data and guess are scaled together)
+    dscale = draw(st.sampled_from([1.0, 1.0, 1.0, 1e-3, 1e3])) if name == "gaussian" else 1.0
+    if dscale != 1.0:
+        data = [v * dscale for v in data]
+        factors = [[[v * dscale ** (1.0 / len(shape)) for v in row] for row in f] for f in factors]
+    wv = st.floats(0.2, 3.0) if H.LOSSES[name]["lb"] == 0.0 else H.sfloats(0.2, 3.0)
     return dict(loss=name, param=None, shape=shape, rank=rank, data=data, holder=holder, init=init_kind,
                 factors=factors, stored=draw(st.sampled_from(["sorted", "reverse", "random"])),
-                perm_seed=draw(st.integers(0, 9999)))
+                perm_seed=draw(st.integers(0, 9999)), dscale=dscale,
+                iweights=draw(st.lists(wv, min_size=rank, max_size=rank)),
+                ddtype=draw(st.sampled_from(["float64", "float64", "float64", "int64", "uint8", "int32"])),
+                dprov=draw(st.sampled_from(["ctor", "ctor", "grown", "c-order"] if holder == "dense" else ["ctor", "ctor", "np-shape"])))
 
 
 def _solver_args(draw, kind):
@@ -478,22 +648,30 @@ def _solver_args(draw, kind):
              decay=draw(st.sampled_from([0.1, 0.5])),
              max_fails=draw(st.integers(0, 2)),
              epoch_iters=draw(st.integers(1, 4)),
-             max_iters=draw(st.sampled_from([0, 1, 2, 3, 4, 5, 6, 3, 4, 5, 6])))
+             max_iters=draw(st.sampled_from([0, 1, 2, 3, 4, 5, 6, 3, 4, 5, 6])),
+             # stop as soon as the estimate drops below a tolerance (None: never), progress logging on/off
+             f_est_tol=draw(st.sampled_from([None, None, None, 0.0, 1.0, 10.0, 1e3])),
+             printitn=draw(st.sampled_from([0, 0, 1, 2])))
     if kind == "adam":
-        a["beta_1"] = draw(st.sampled_from([0.9, 0.5]))
-        a["beta_2"] = draw(st.sampled_from([0.999, 0.9]))
+        a["beta_1"] = draw(st.sampled_from([0.9, 0.5, 0.0, 0.99]))
+        a["beta_2"] = draw(st.sampled_from([0.999, 0.9, 0.5]))
+        a["epsilon"] = draw(st.sampled_from([None, None, 1e-8, 1e-4, 1e-12]))
     return a
 
 
 def _mk_solver(a):
     if a["kind"] == "lbfgsb":
-        kw = {k: a[k] for k in ("m", "maxiter", "maxfun", "factr", "pgtol") if a.get(k) is not None}
+        kw = {k: a[k] for k in ("m", "maxiter", "maxfun", "factr", "pgtol", "maxls") if a.get(k) is not None}
         return LBFGSB(**kw)
     common = dict(rate=a["rate"], decay=a["decay"], max_fails=a["max_fails"], epoch_iters=a["epoch_iters"],
-                  max_iters=a["max_iters"], printitn=0)
+                  max_iters=a["max_iters"], printitn=a.get("printitn", 0))
+    if a.get("f_est_tol") is not None:
+        common["f_est_tol"] = a["f_est_tol"]
     if a["kind"] == "sgd":
         return SGD(**common)
     if a["kind"] == "adam":
+        if a.get("epsilon") is not None:
+            common["epsilon"] = a["epsilon"]
         return Adam(beta_1=a["beta_1"], beta_2=a["beta_2"], **common)
     if a["kind"] == "adagrad":
         return Adagrad(**common)
@@ -509,8 +687,26 @@ def _build_problem(case):
         init = "random"
     else:
         fm = [f.copy() for f in H.build_factors(case)]
-        init = ttb.ktensor(fm) if case["init"] == "ktensor" else fm
+        kind = case["init"]
+        if kind == "factors":
+            init = fm
+        else:
+            # a ktensor guess, fresh or in the state an earlier operation left it in (weights need not be 1)
+            init = ttb.ktensor(fm)
+            try:
+                if kind == "ktensor-normalized":
+                    init.normalize()
+                elif kind == "ktensor-arranged":
+                    init.arrange()
+                elif kind == "ktensor-weighted" and case.get("iweights"):
+                    init = ttb.ktensor(fm, np.array(case["iweights"], dtype=float))
+            except Exception:  # noqa: BLE001
+                init = ttb.ktensor([f.copy() for f in H.build_factors(case)])
     return name, X, data, init
+
+
+def _data_dtype(data):
+    return str((data.vals if isinstance(data, ttb.sptensor) else data.data).dtype)
 
 
 def _sample_estimate(name, fh, M, fsample):
@@ -606,7 +802,9 @@ def _stochastic_body(ctx, case):
     objective = H.objective(name) if as_enum else (fh, gh, lb)
     ctx.label("loss-" + name, "solver-" + a["kind"], "holder-" + case["holder"], "sampler-" + case["sampler"],
               "init-" + case["init"], f"max_iters={a['max_iters']}", f"max_fails={a['max_fails']}",
-              "objective-enum" if as_enum else "objective-tuple")
+              "objective-enum" if as_enum else "objective-tuple", f"f_est_tol={a.get('f_est_tol')}",
+              f"printitn={a.get('printitn', 0)}", "data-" + _data_dtype(data), "data-prov-" + case.get("dprov", "ctor"),
+              f"data-scale-{case.get('dscale', 1.0)}")
     opt = _mk_solver(a)
     with ctx.sut("GCPSampler"):
         inner = _mk_sampler(case, data, X)
@@ -680,6 +878,8 @@ def _lbfgsb_case(draw, tier):
     c["mask"] = None if mk == "none" else draw(st.lists(st.sampled_from([0.0, 1.0, 1.0]), min_size=n, max_size=n))
     c["objective_as"] = draw(st.sampled_from(["tuple", "enum"]))
     c["np_seed"] = draw(st.integers(0, 2**31 - 1))
+    c["mdtype"] = draw(st.sampled_from(["float64", "float64", "int64", "bool", "uint8"]))  # a mask is naturally 0/1 integers or booleans
+    c["solver"]["maxls"] = draw(st.sampled_from([None, None, 5, 40]))
     return c
 
 
@@ -705,7 +905,9 @@ def solve_lbfgsb(ctx, case):
     Xw = X if W is None else X * W
     as_enum = case["objective_as"] == "enum" and _domain_ok_for_enum(name, Xw, "dense")
     objective = H.objective(name) if as_enum else (fh, gh, lb)
-    mask = None if W is None else ttb.tensor(W.copy(order="F"), tuple(case["shape"]))
+    mask = None if W is None else ttb.tensor(H.typed(W, case.get("mdtype")).copy(order="F"), tuple(case["shape"]))
+    if mask is not None:
+        ctx.label("mask-dtype-" + str(mask.data.dtype))
     ctx.label("loss-" + name, "mask-" + ("none" if W is None else "tensor"), "init-" + case["init"],
               f"maxiter={case['solver']['maxiter']}", "objective-enum" if as_enum else "objective-tuple")
     opt = _mk_solver(case["solver"])
@@ -723,7 +925,14 @@ def solve_lbfgsb(ctx, case):
     ff = float(info["final_f"])
     ctx.nt = F1 < F0 - tol0 - tol1
     ctx.label("improved" if ctx.nt else "not-improved")
-    ctx.check(abs(ff - F1) <= tol1, "final_f-is-objective-of-returned-model", f"{ff!r} vs {F1!r} tol {tol1:.3g}")
+    task = info.get("task")
+    task = task.decode(errors="replace") if isinstance(task, bytes) else str(task)
+    if info.get("warnflag") == 2 or "ABNORMAL" in task:
+        # SciPy reports an abnormal termination (line search gave up, e.g. with a small maxls): it then hands back the
+        # last accepted point together with the value of the last trial point - its own convention, not pyttb's
+        ctx.label("scipy-abnormal-termination")
+    else:
+        ctx.check(abs(ff - F1) <= tol1, "final_f-is-objective-of-returned-model", f"{ff!r} vs {F1!r} tol {tol1:.3g}")
     ctx.check(F1 <= F0 + tol0 + tol1, "lbfgsb-never-returns-higher-objective", f"{F1!r} vs start {F0!r}")
     low = min(float(np.min(f)) for f in M.factor_matrices)
     ctx.check(low >= lb, "factor-entries-respect-lower-bound", f"min entry {low} < {lb}")
@@ -768,7 +977,9 @@ def _reuse_case(draw, tier, kind):
         solver = _solver_args(draw, kind)
         solver["max_iters"] = draw(st.integers(1, 3))
     seeds = [draw(st.integers(0, 2**31 - 1)) for _ in probs]
-    return dict(solver=solver, problems=probs, seeds=seeds, relation=same)
+    # the same data tensor and GCPSampler object handed to every solve (only meaningful for one and the same problem)
+    share = same == "same-problem" and draw(st.booleans())
+    return dict(solver=solver, problems=probs, seeds=seeds, relation=same, share_data_and_sampler=share)
 
 
 class _Counter:
@@ -779,16 +990,21 @@ class _Counter:
         self.n += 1
 
 
-def _one_solve(ctx, opt, p, seed, what):
+def _one_solve(ctx, opt, p, seed, what, shared=None):
     name, X, data, init = _build_problem(p)
     fh, gh, lb = fg_setup.setup(H.objective(name), None, None)
     M0 = ttb.ktensor([f.copy() for f in H.build_factors(p)])
+    if shared is not None:
+        if "data" not in shared:
+            shared["data"] = data
+            shared["sampler"] = GCPSampler(data)
+        data = shared["data"]
     np.random.seed(seed)
     try:
         if isinstance(opt, LBFGSB):
             M, info = opt.solve(M0, data, fh, gh, lb)
         else:
-            M, info = opt.solve(M0, data, fh, gh, lb, GCPSampler(data))
+            M, info = opt.solve(M0, data, fh, gh, lb, GCPSampler(data) if shared is None else shared["sampler"])
     except ValueError as e:
         if "Infinite gradient encountered" in str(e):
             return "diverged"
@@ -826,10 +1042,14 @@ def _reuse_body(ctx, case):
 
     with ctx.sut("optimizer-constructor"):
         shared = mk(cb_shared)
+    shared_objs = {} if case.get("share_data_and_sampler") else None
+    if shared_objs is not None:
+        ctx.label("data-and-sampler-objects-shared")
     for i, (p, seed) in enumerate(zip(probs, case["seeds"])):
         cb_fresh = _Counter() if a.get("callback") else None
         before = cb_shared.n if cb_shared is not None else 0
-        got = _one_solve(ctx, shared, p, seed, "first-solve-on-object" if i == 0 else "later-solve-on-reused-object")
+        got = _one_solve(ctx, shared, p, seed, "first-solve-on-object" if i == 0 else "later-solve-on-reused-object",
+                         shared=shared_objs)
         fresh = _one_solve(ctx, mk(cb_fresh), p, seed, "solve-on-fresh-object")
         clause = "first-solve-equals-fresh-object" if i == 0 else "later-solve-equals-fresh-object"
         ctx.check(_same_result(got, fresh), clause, f"solve {i} of {len(probs)} ({case['relation']})")
